@@ -23,6 +23,7 @@ import (
 	"context"
 	"fmt"
 	"io"
+	"runtime"
 	"sort"
 	"strings"
 	"sync"
@@ -312,7 +313,7 @@ func c16GenSnap(rng *verifkit.Rand) *c16Snap {
 	}
 	s.CreateBudget = rng.PickInt(-1, -1, 0, 1, 2)
 	for i, ne := 0, rng.PickInt(0, 0, 1, 1, 2, 3, 4); i < ne; i++ {
-		s.Boot = append(s.Boot, c16BootEv{BeforeCall: rng.Range(0, 24), Type: rng.Range(1, s.NTypes)})
+		s.Boot = append(s.Boot, c16BootEv{BeforeCall: rng.Range(0, 3*n), Type: rng.Range(1, s.NTypes)})
 	}
 	s.Order = rng.Perm(n)
 	return s
@@ -521,6 +522,9 @@ func c16Bucket(n int) string {
 func TestVerifC16(t *testing.T) {
 	run := verifkit.Start(t, "C16")
 	defer run.Finish()
+	// one pass at a time: more Ps only add GC/scheduler overhead to the 16
+	// sibling processes
+	defer runtime.GOMAXPROCS(runtime.GOMAXPROCS(2))
 
 	n := run.N(100000, 2000000)
 	seen := map[string]int{}
